@@ -14,7 +14,7 @@ BUILTIN_NAMES = set('len list tuple set frozenset dict zip enumerate reversed ra
                     'all any map'.split())
 SPEC_NAMES = set('old result implies fresh unchanged seq_remove seq_index ite map_keys is_int is_str is_none is_bool is_real '
                  'upper lower class_defaults int_str every refs anyref ints strs vals arr_set arr_dec_above seq_without seq_take '
-                 'seq_drop allocated map_set map_del same as_str as_int int_literal float float_literal is_digits join'.split())
+                 'seq_drop allocated map_set map_del same as_str as_int int_literal float float_literal is_digits join world is_ref as_ref'.split())
 EXC_NAMES = set('Exception KeyError IndexError ValueError TypeError AttributeError StopIteration ZeroDivisionError AssertionError '
                 'RuntimeError NotImplementedError LookupError ArithmeticError BaseException'.split())
 
@@ -573,6 +573,8 @@ class ExprMixin(object):
             return SpecFn('builtin:log')
         if base.name == 'collections' and attr == 'deque':
             return SpecFn('builtin:list')        # LIB: a deque built from an iterable iterates as that sequence
+        if len(self.reg.by_base.get(attr, [])) > 1:
+            return SpecFn('func:%s.%s' % (base.name, attr))
         return SpecFn('func:' + attr)
 
     def ev_Subscript(self, node, st):
@@ -675,6 +677,9 @@ class ExprMixin(object):
     def slice_(self, base, sl, st):
         if isinstance(base, PyVal) or sl.step is not None:
             raise OutsideSubset('slice')
+        if base.sort == VAL:
+            self.raise_if(st, z3.Not(Val.is_VStr(base.t)), 'TypeError', 'slice of a value that is not a string')
+            base = coerce(base, STR)
         lo = self.ev(sl.lower, st).t if sl.lower is not None else z3.IntVal(0)
         n = z3.Length(base.t)
         hi = self.ev(sl.upper, st).t if sl.upper is not None else n
